@@ -70,7 +70,7 @@ func runFrames(c *mon.Case, r *mon.Run, dir string, victim string, specs []frame
 	var rc *o4.RefConn
 	var verr, rerr error
 	var victimHalf *memwire.Half // the half the victim reads from
-	var vdone chan struct{}       // client-coalesced: closed when Dial has returned
+	var vdone chan struct{}      // client-coalesced: closed when Dial has returned
 	switch victim {
 	case "server":
 		sf, err := o4.ServerFactory(dir, b)
@@ -714,6 +714,12 @@ func TestCheck(t *testing.T) {
 		})
 	}
 	// (2a) reflection: an endpoint's own frames sent back to it
+	for i := 0; i < r.Pick(12, 80); i++ {
+		i := i
+		r.Bubble(fmt.Sprintf("transplant/%03d", i), func(c *mon.Case) {
+			transplant(c, r, dir, []int{2, 4, 8, 16}[i%4], i%2 == 0, r.Sub("transplant", i))
+		})
+	}
 	r.Bubble("reflect", func(c *mon.Case) {
 		for k := 0; k < r.Pick(8, 60); k++ {
 			reflect(c, r, dir, []string{"client", "server"}[k%2], r.Sub("reflect", k))
